@@ -86,6 +86,21 @@ func (o *rigObj) Boundary(label string) bool {
 func (o *rigObj) Do(tid int, op string) string {
 	ctx := context.Background()
 	switch {
+	case strings.HasPrefix(op, "t") && strings.Contains(op, "-"):
+		// t<a>-<b>: Tell messages a..b in order (one op, result = number accepted)
+		ab := strings.SplitN(op[1:], "-", 2)
+		a, err1 := strconv.Atoi(ab[0])
+		b, err2 := strconv.Atoi(ab[1])
+		if err1 != nil || err2 != nil {
+			return "bad-op"
+		}
+		n := 0
+		for id := a; id <= b; id++ {
+			if err := actor.Tell(ctx, o.rig.PID, &actor.VerifMsg{ID: id}); err == nil {
+				n++
+			}
+		}
+		return "ok" + strconv.Itoa(n)
 	case strings.HasPrefix(op, "t"):
 		id, err := strconv.Atoi(op[1:])
 		if err != nil {
@@ -124,7 +139,7 @@ func (o *rigObj) Abort() {
 
 func (o *rigObj) Final() string {
 	// sequential completion: worker 0 runs turns until nothing is left (bounded)
-	for i := 0; i < 64; i++ {
+	for i := 0; i < 2000; i++ {
 		if !o.rig.TryTurn(0) {
 			break
 		}
@@ -137,10 +152,43 @@ func (o *rigObj) Final() string {
 	return res
 }
 
+func verifID(m any) int {
+	if v, ok := m.(*actor.VerifMsg); ok {
+		return v.ID
+	}
+	return -1
+}
+
 func mk(cfg string, nthreads int) vlib.Obj {
 	f := strings.Fields(cfg)
-	if len(f) != 2 {
+	if len(f) != 2 && len(f) != 3 {
 		return nil
+	}
+	// optional third word: mailbox kind (oracle-only cases; the Lean model covers the default mailbox)
+	opts := []actor.SpawnOption{actor.WithLongLived()}
+	if len(f) == 3 {
+		var mb actor.Mailbox
+		switch {
+		case f[2] == "unbounded":
+			mb = actor.NewUnboundedMailbox()
+		case f[2] == "segmented":
+			mb = actor.NewUnboundedSegmentedMailbox()
+		case f[2] == "fair":
+			mb = actor.NewUnboundedFairMailbox()
+		case strings.HasPrefix(f[2], "ring"):
+			c, _ := strconv.Atoi(f[2][4:])
+			mb = actor.NewNonBlockingBoundedMailbox(c)
+		case strings.HasPrefix(f[2], "bounded"):
+			c, _ := strconv.Atoi(f[2][7:])
+			mb = actor.NewBoundedMailbox(c)
+		case f[2] == "uprio":
+			mb = actor.NewUnboundedPriorityMailBox(func(a, b any) bool { return verifID(a) < verifID(b) })
+		case f[2] == "usprio":
+			mb = actor.NewUnboundedStablePriorityMailbox(func(a, b any) bool { return verifID(a) < verifID(b) })
+		default:
+			return nil
+		}
+		opts = append(opts, actor.WithMailbox(mb))
 	}
 	nw, err1 := strconv.Atoi(f[0])
 	budget, err2 := strconv.Atoi(f[1])
@@ -149,7 +197,7 @@ func mk(cfg string, nthreads int) vlib.Obj {
 	}
 	caseN++
 	p := &probe{}
-	rig, err := actor.VerifNewRig(context.Background(), sys, fmt.Sprintf("probe-%d", caseN), p, nw, budget, actor.WithLongLived())
+	rig, err := actor.VerifNewRig(context.Background(), sys, fmt.Sprintf("probe-%d", caseN), p, nw, budget, opts...)
 	if err != nil {
 		fmt.Fprintln(os.Stderr, "rig:", err)
 		return nil
